@@ -229,7 +229,7 @@ Definition parse_traversal_step (s : nstep) (from : list ltok)
                         | None => Panic (PDidntFindToken TokenNumberLit)
                         | Some (vb, v, va) => Ok (raw vb ++ [Leaf LNumber [lt v]] ++ raw va)
                         end
-                    | _ => Ok []    (* switch keyVal.Type() has no other case *)
+                    | _ => Ok (raw key_toks)   (* default: other literal keys (true/false/null) *)
                     end in
                   match key_nodes with
                   | Panic p => Panic p
@@ -325,7 +325,8 @@ Fixpoint parse_labels_rest (rs : list rng) (from : list ltok) : list node * list
   end.
 
 (* returns (beforeAll, labels node, after); for i = 0 [before] is NOT appended
-   to the children but returned as beforeAll *)
+   to the labels' children but returned as beforeAll (parseBlock appends it to
+   the block's children, before the labels node) *)
 Definition parse_block_labels (rs : list rng) (from : list ltok)
   : list ltok * node * list ltok :=
   match rs with
@@ -383,7 +384,7 @@ Fixpoint parse_body_item (it : nitem) (from : list ltok) {struct it}
           let '(before1, type_toks, from1) := partition within type_r in
           match type_toks with
           | [t] =>
-              let '(_before_all_is_dropped, labels_node, from2) := parse_block_labels label_rs from1 in
+              let '(before_labels, labels_node, from2) := parse_block_labels label_rs from1 in
               let '(before2, obrace, from3) := partition from2 open_r in
               let '(body_toks, cbrace, from4) := partition from3 close_r in
               match parse_body_with parse_body_item body_r items body_toks with
@@ -392,7 +393,7 @@ Fixpoint parse_body_item (it : nitem) (from : list ltok) {struct it}
                   Ok (before,
                       Inner KBlock
                         ([Leaf LComments (tokens lead)] ++ raw before1 ++ [Leaf LIdentifier [lt t]]
-                         ++ [labels_node] ++ raw before2 ++ raw obrace
+                         ++ raw before_labels ++ [labels_node] ++ raw before2 ++ raw obrace
                          ++ raw bbefore ++ [body] ++ raw bafter
                          ++ raw cbrace ++ raw from4 ++ raw linec ++ raw nl),
                       after)
@@ -472,17 +473,35 @@ Fixpoint summ_of (n : node) : list summ :=
       end
   end.
 
-(* blockLabels.Current() on one label node. The unescaping done by
-   hclsyntax.ParseStringLiteralToken is NOT modelled: the raw literal bytes are
-   returned (equal to the label when it contains no backslash). *)
+(* the tokens between the open quote (already removed) and the final CQuote *)
+Fixpoint quoted_body (ts : list tok) : option (list tok) :=
+  match ts with
+  | [] => None
+  | c :: r =>
+      match r with
+      | [] => if is (ty c) TokenCQuote then Some [] else None
+      | _ => match quoted_body r with Some m => Some (c :: m) | None => None end
+      end
+  end.
+Definition all_quoted_lit (ts : list tok) : bool := forallb (fun t => is (ty t) TokenQuotedLit) ts.
+
+(* blockLabels.Current() on one label node: an identifier; or OQuote, any
+   number of QuotedLit tokens (the scanner splits a literal at "$" and "%"),
+   CQuote — the literals are joined. Anything else is dropped.
+   The unescaping done by hclsyntax.ParseStringLiteralToken on each literal is
+   NOT modelled (nor its possible error): the raw literal bytes are returned,
+   equal to the label whenever it contains no backslash escape and no $${ / %%{
+   escape. *)
 Definition label_current (n : node) : option (list Z) :=
   match n with
   | Leaf LIdentifier [t] => if is (ty t) TokenIdent then Some (bytes t) else None
-  | Leaf LQuoted [o; q; c] =>
-      if is (ty o) TokenOQuote && is (ty q) TokenQuotedLit && is (ty c) TokenCQuote
-      then Some (bytes q) else None
-  | Leaf LQuoted [o; c] =>
-      if is (ty o) TokenOQuote && is (ty c) TokenCQuote then Some [] else None
+  | Leaf LQuoted (o :: rest) =>
+      if is (ty o) TokenOQuote then
+        match quoted_body rest with
+        | Some mid => if all_quoted_lit mid then Some (concat (map bytes mid)) else None
+        | None => None
+        end
+      else None
   | _ => None
   end.
 (* Block.Labels() *)
@@ -515,30 +534,50 @@ Definition label_source (ts : list tok) : list Z :=
   | [t] => if is (ty t) TokenIdent then bytes t else quoted_text ts
   | _ => quoted_text ts
   end.
-(* a label the writer understands: identifier, "" or one literal token *)
-Definition label_simple (ts : list tok) : bool :=
+(* the tokens of a label in an error-free parse: an identifier, or OQuote,
+   literal tokens, CQuote (template sequences in labels are parse errors) *)
+Definition label_ok (ts : list tok) : bool :=
   match ts with
   | [t] => is (ty t) TokenIdent
-  | [o; c] => is (ty o) TokenOQuote && is (ty c) TokenCQuote
-  | [o; q; c] => is (ty o) TokenOQuote && is (ty q) TokenQuotedLit && is (ty c) TokenCQuote
-  | _ => false
+  | o :: rest =>
+      is (ty o) TokenOQuote &&
+      match quoted_body rest with Some mid => all_quoted_lit mid | None => false end
+  | [] => false
   end.
-Fixpoint labels_simple (toks : list ltok) (it : nitem) : bool :=
+Fixpoint labels_ok (toks : list ltok) (it : nitem) : bool :=
   match it with
   | NAttr _ _ _ _ => true
   | NBlock _ label_rs _ _ _ items =>
-      forallb (fun r => label_simple (tokens (sel_r toks r))) label_rs
-      && forallb (labels_simple toks) items
+      forallb (fun r => label_ok (tokens (sel_r toks r))) label_rs
+      && forallb (labels_ok toks) items
+  end.
+
+(* what the public accessors return: Labels() instead of the label nodes *)
+Inductive asumm :=
+| AAttr (name : list Z) (vars : list (list (list tok)))
+| ABlock (type_ : list Z) (labels : list (list Z)) (body : list asumm).
+Fixpoint summ_api (s : summ) : asumm :=
+  match s with
+  | SumAttr n v => AAttr n v
+  | SumBlock t ls b => ABlock t (labels_api ls) (map summ_api b)
+  end.
+Fixpoint ast_api (toks : list ltok) (it : nitem) : asumm :=
+  match it with
+  | NAttr _ name_r _ e =>
+      AAttr (range_bytes toks name_r)
+            (map (fun t => map (fun s => tokens (sel_r toks (s_range s))) t) (e_travs e))
+  | NBlock type_r label_rs _ _ _ items =>
+      ABlock (range_bytes toks type_r)
+             (map (fun r => label_source (tokens (sel_r toks r))) label_rs)
+             (map (ast_api toks) items)
   end.
 
 (* ---- ranges_wf: what an error-free native parse guarantees ---------------- *)
 (* Geometric conditions on the ranges relative to the GLOBAL token list: token
    starts strictly increasing; ranges nested and ordered; name/type ranges cover
    exactly one token; the tokens after an item up to the end of the enclosing
-   body are comments then newline/EOF; nothing between a block's type and its
-   first label; the expression of an attribute ends the attribute; each
-   traversal step covers the tokens its syntax needs; and
-   (only if [strict]) every index key is a string or a number. *)
+   body are comments then newline/EOF; the expression of an attribute ends the
+   attribute; each traversal step covers the tokens its syntax needs. *)
 Fixpoint sorted_toks (l : list ltok) : bool :=
   match l with
   | a :: r => match r with b :: _ => (t_start a <? t_start b) | [] => true end && sorted_toks r
@@ -549,10 +588,7 @@ Definition clamp (lo hi x : Z) : Z := Z.max lo (Z.min x hi).
 Definition has_ty (ty_ : Z) (it : list ltok) : bool := existsb (fun t => is (lty t) ty_) it.
 Definition is_one {A} (l : list A) : bool := match l with [_] => true | _ => false end.
 Definition is_nil {A} (l : list A) : bool := match l with [] => true | _ => false end.
-Definition key_supported (k : key_kind) : bool :=
-  match k with KString | KNumber => true | _ => false end.
-
-Definition step_tokens_ok (strict : bool) (k : step_kind) (w : list ltok) : bool :=
+Definition step_tokens_ok (k : step_kind) (w : list ltok) : bool :=
   match k with
   | SRoot | SAttr => has_ty TokenIdent w
   | SIndex kk =>
@@ -568,7 +604,7 @@ Definition step_tokens_ok (strict : bool) (k : step_kind) (w : list ltok) : bool
                   match kk with
                   | KString => true
                   | KNumber => has_ty TokenNumberLit key_toks
-                  | _ => negb strict
+                  | _ => true
                   end
               end
           end
@@ -580,7 +616,6 @@ Definition in_order (lo hi : Z) (r : rng) : bool :=
   (lo <=? r_s r) && (r_s r <=? r_e r) && (r_e r <=? hi).
 
 Section Wf.
-  Variable strict : bool.
   Variable toks : list ltok.
 
   Fixpoint wf_steps (lo hi : Z) (steps : list nstep) : bool :=
@@ -588,7 +623,7 @@ Section Wf.
     | [] => true
     | s :: r =>
         in_order lo hi (s_range s)
-        && step_tokens_ok strict (s_kind s) (sel_r toks (s_range s))
+        && step_tokens_ok (s_kind s) (sel_r toks (s_range s))
         && wf_steps (r_e (s_range s)) hi r
     end.
   Definition wf_trav (lo hi : Z) (t : ntrav) : bool :=
@@ -605,11 +640,7 @@ Section Wf.
     | [] => true
     | r :: rest => in_order lo hi r && wf_labels_rest (r_e r) hi rest
     end.
-  Definition wf_labels (lo hi : Z) (rs : list rng) : bool :=
-    match rs with
-    | [] => true
-    | r :: _ => is_nil (sel toks lo (r_s r)) && wf_labels_rest lo hi rs
-    end.
+  Definition wf_labels (lo hi : Z) (rs : list rng) : bool := wf_labels_rest lo hi rs.
   Definition labels_end (lo : Z) (rs : list rng) : Z := r_e (last rs (mkR lo lo)).
 
   Section WfItems.
@@ -663,21 +694,14 @@ Section Wf.
 End Wf.
 
 (* stated on the file as the loader sees it (bodies sorted by start offset) *)
-Definition ranges_wf (toks : list ltok) (f : nfile) : bool := wf_file true toks (sort_file f).
-(* the same without the hypothesis on index key kinds *)
-Definition ranges_wf_anykey (toks : list ltok) (f : nfile) : bool := wf_file false toks (sort_file f).
+Definition ranges_wf (toks : list ltok) (f : nfile) : bool := wf_file toks (sort_file f).
+Definition file_labels_ok (toks : list ltok) (f : nfile) : bool :=
+  forallb (labels_ok toks) (f_items (sort_file f)).
 
 (* ---- statements proved in LoaderProofs.v ----------------------------------- *)
 Definition load_flatten_stmt := forall toks f,
   ranges_wf toks f = true ->
   exists tree, load toks f = Ok tree /\ build_tokens tree = tokens toks.
-(* the statement without the key-kind hypothesis is false: load_flatten_refuted *)
-Definition load_flatten_anykey_stmt := forall toks f,
-  ranges_wf_anykey toks f = true ->
-  exists tree, load toks f = Ok tree /\ build_tokens tree = tokens toks.
-(* full accessor statement (no side condition on labels): false, see
-   accessors_labels_refuted *)
-Definition accessors_labels_stmt := forall toks f tree,
-  ranges_wf toks f = true -> load toks f = Ok tree ->
-  forall t ls b, In (SumBlock t ls b) (summ_of tree) ->
-    labels_api ls = map (fun n => label_source (build_tokens n)) ls.
+Definition accessors_complete_stmt := forall toks f tree,
+  ranges_wf toks f = true -> file_labels_ok toks f = true -> load toks f = Ok tree ->
+  map summ_api (summ_of tree) = map (ast_api toks) (f_items (sort_file f)).
